@@ -36,10 +36,10 @@ const defaultThreshold = 30 * time.Minute // documented default of annotate.Thre
 
 // Case is what a replay file stores: a state and the call variant that failed.
 type Case struct {
-	Space   SpaceID  `json:"space"`
-	Ops     []Op     `json:"ops"`
-	Trace   []string `json:"trace"` // human-readable ops (informational)
-	Variant Variant  `json:"variant"`
+	Space   histsim.SpaceID `json:"space"`
+	Ops     []Op            `json:"ops"`
+	Trace   []string        `json:"trace"` // human-readable ops (informational)
+	Variant Variant         `json:"variant"`
 }
 
 var (
@@ -56,7 +56,9 @@ func main() {
 			"(fault if it references a deleted child; undeletes a deleted parent), touch X + parent edit and delete X + parent edit in one upload " +
 			"(pre-commit regime: child stamped threshold-before / same second / threshold-after the parent), parent delete} x gap alphabet; " +
 			"every sequence up to the tier depth is visited once (DFS, a tree: different sequences are different histories) and the oracle is " +
-			"evaluated at every state under every call variant. A state is non-trivial when annotation must discriminate: some child has a " +
+			"evaluated at every state: with default options and with the Threshold option (histories handed over newest-first) at every state, with " +
+			"IgnoreInconsistency at every state that holds an inconsistency, and with a withheld child history (with and without IgnoreMissingChildren), " +
+			"ChildFilter on pre-annotated parents and IgnoreInconsistency on consistent histories at every state of depth < tier depth. A state is non-trivial when annotation must discriminate: some child has a " +
 			"later version between parent versions, two parent versions see different versions of one child, or an inconsistency is present; " +
 			"fingerprint = (space, op sequence)")
 		r.Assume("the ground truth is the simulator verif/gen/histsim (last version written by an upload committed at or before t), independent of /repo")
@@ -103,36 +105,26 @@ func main() {
 	})
 }
 
-func (s *Space) label() string {
-	l := fmt.Sprintf("%s/depth%d/gaps%v", s.name(), s.Depth, s.Gaps)
-	if s.VersionStep > 1 || s.FirstVersion > 1 {
-		l += fmt.Sprintf("/versions%d+%dk", s.FirstVersion, s.VersionStep)
-	}
-	if s.Regime == histsim.PreCommit {
-		l += fmt.Sprintf("/skew%v", s.Delta)
-	}
-	return l
-}
-
 // spaces lists the searched spaces of a tier.
 func spaces(quick bool) []*Space {
 	const h, m, ms = time.Hour, time.Minute, time.Millisecond
 	// commit-time regime: gaps are "well separated" (1 h) and 100 ms (same
 	// timestamp second, distinct commit instants).
 	commit := func(fam string, depth int, touch2 bool, gaps ...time.Duration) *Space {
-		return &Space{Fam: family(fam), Regime: histsim.CommitTime, Gaps: gaps, Skews: []int{0}, Depth: depth, ExtraDepth: depth - 1, Touch2: touch2}
+		return &Space{Space: histsim.Space{Fam: histsim.FamilyByName(fam), Regime: histsim.CommitTime, Gaps: gaps, Skews: []int{0}, Depth: depth, Touch2: touch2}, ExtraDepth: depth - 1}
 	}
 	// pre-commit regime: gaps are 2 h (> 2 x the largest threshold) and 0 (same
 	// second, restricted by Space.next); same-upload children are stamped
 	// skew x delta from their parent.
 	pre := func(fam string, depth int, delta time.Duration, skews []int, gaps ...time.Duration) *Space {
-		return &Space{Fam: family(fam), Regime: histsim.PreCommit, Gaps: gaps, Delta: delta, Skews: skews, Depth: depth, ExtraDepth: depth - 1}
+		return &Space{Space: histsim.Space{Fam: histsim.FamilyByName(fam), Regime: histsim.PreCommit, Gaps: gaps, Delta: delta, Skews: skews, Depth: depth}, ExtraDepth: depth - 1}
 	}
 	odd := func(s *Space) *Space { s.FirstVersion, s.VersionStep = 2, 3; return s }
 	all, outer := []int{-1, 0, 1}, []int{-1, 1}
 	if quick {
 		return []*Space{
 			commit("way2", 4, true, h, 100*ms),
+			commit("way2r", 5, true, 100*ms),
 			pre("way2", 4, m, all, 2*h, 0),
 			odd(commit("rel3", 3, true, h, 100*ms)),
 			odd(pre("rel3", 3, 30*m, all, 2*h, 0)),
@@ -143,6 +135,7 @@ func spaces(quick bool) []*Space {
 	return []*Space{
 		commit("way2", 5, true, 100*ms),
 		commit("way2", 6, false, 100*ms),
+		commit("way2r", 6, true, 100*ms),
 		pre("way2", 5, m, outer, 2*h, 0),
 		pre("way2", 4, m, all, 2*h, 10*m, 0),
 		pre("way2", 5, 30*m, outer, 2*h),
@@ -236,9 +229,9 @@ type worker struct {
 }
 
 func newWorker(r *kit.Run, sp *Space, stop *int32) *worker {
-	k := &worker{r: r, sp: sp, vars: sp.variants(), ops: sp.ops(), stop: stop}
+	k := &worker{r: r, sp: sp, vars: sp.variants(), ops: sp.Ops(), stop: stop}
 	for _, o := range k.ops {
-		k.uploads = append(k.uploads, sp.upload(o))
+		k.uploads = append(k.uploads, sp.Upload(o))
 	}
 	return k
 }
@@ -257,27 +250,27 @@ func (s *Space) hash() uint64 {
 	return h
 }
 
-// reset builds the initial world and applies a prefix; returns the status.
-func (k *worker) reset(prefix []Op) status {
-	k.w = histsim.New(histsim.Config{Regime: k.sp.Regime, FirstVersion: k.sp.FirstVersion, VersionStep: k.sp.VersionStep})
-	u, st := k.sp.initial()
+// reset builds the initial world and applies a prefix; returns the histsim.Status.
+func (k *worker) reset(prefix []Op) histsim.Status {
+	k.w = histsim.New(k.sp.Config())
+	u, st := k.sp.Initial()
 	k.w.Apply(u)
 	k.trace = k.trace[:0]
 	k.hashes = append(k.hashes[:0], k.sp.hash())
 	for _, o := range prefix {
-		n, ok := k.sp.next(st, o)
+		n, ok := k.sp.Next(st, o)
 		if !ok {
 			kit.Fatalf("prefix op %v not enabled", o)
 		}
 		st = n
-		k.w.Apply(k.sp.upload(o))
+		k.w.Apply(k.sp.Upload(o))
 		k.trace = append(k.trace, o)
-		k.hashes = append(k.hashes, mix(k.hashes[len(k.hashes)-1], o.code()))
+		k.hashes = append(k.hashes, mix(k.hashes[len(k.hashes)-1], o.Code()))
 	}
 	return st
 }
 
-func (k *worker) dfs(st status, depth int, recurse bool) {
+func (k *worker) dfs(st histsim.Status, depth int, recurse bool) {
 	if atomic.LoadInt32(k.stop) != 0 {
 		return
 	}
@@ -286,13 +279,13 @@ func (k *worker) dfs(st status, depth int, recurse bool) {
 		return
 	}
 	for i, o := range k.ops {
-		n, ok := k.sp.next(st, o)
+		n, ok := k.sp.Next(st, o)
 		if !ok {
 			continue
 		}
 		k.w.Apply(k.uploads[i])
 		k.trace = append(k.trace, o)
-		k.hashes = append(k.hashes, mix(k.hashes[len(k.hashes)-1], o.code()))
+		k.hashes = append(k.hashes, mix(k.hashes[len(k.hashes)-1], o.Code()))
 		k.transitions++
 		k.dfs(n, depth+1, true)
 		k.hashes = k.hashes[:len(k.hashes)-1]
@@ -304,17 +297,17 @@ func (k *worker) dfs(st status, depth int, recurse bool) {
 // prefixes enumerates every enabled op sequence of length <= cut.
 func (s *Space) tasks(cut int) []task {
 	var out []task
-	ops := s.ops()
-	_, st0 := s.initial()
-	var rec func(st status, prefix []Op)
-	rec = func(st status, prefix []Op) {
+	ops := s.Ops()
+	_, st0 := s.Initial()
+	var rec func(st histsim.Status, prefix []Op)
+	rec = func(st histsim.Status, prefix []Op) {
 		full := len(prefix) == cut
 		out = append(out, task{prefix: append([]Op(nil), prefix...), recurse: full})
 		if full {
 			return
 		}
 		for _, o := range ops {
-			if n, ok := s.next(st, o); ok {
+			if n, ok := s.Next(st, o); ok {
 				rec(n, append(prefix, o))
 			}
 		}
@@ -480,7 +473,7 @@ func (k *worker) describe(t *truth) interface{} {
 	return map[string]interface{}{"space": k.sp.label(), "ops": k.traceStrings(), "expected_parent_versions": ps, "inconsistencies": len(t.incs)}
 }
 
-const maxViolations = 20000 // the search stops once this many oracle mismatches were reported
+const maxViolations = 200000 // the search stops once this many oracle mismatches were reported
 
 func (k *worker) violation(v Variant, key, what string) {
 	if k.r.Violations() >= maxViolations {
@@ -489,7 +482,7 @@ func (k *worker) violation(v Variant, key, what string) {
 		}
 		return
 	}
-	c := Case{Space: k.sp.id(), Ops: append([]Op(nil), k.trace...), Trace: k.traceStrings(), Variant: v}
+	c := Case{Space: k.sp.ID(), Ops: append([]Op(nil), k.trace...), Trace: k.traceStrings(), Variant: v}
 	k.r.Violation(key, what+fmt.Sprintf(" | history: %v", c.Trace), c)
 }
 
@@ -498,7 +491,7 @@ func (k *worker) buildParents(t *truth) *parents {
 	f := &k.sp.Fam
 	p := &k.par
 	p.ways, p.rels = nil, nil
-	if f.isWay() {
+	if f.IsWay() {
 		p.ways = k.w.Ways(f.Parent.WayID())
 	} else {
 		p.rels = k.w.Relations(f.Parent.RelationID())
@@ -506,7 +499,7 @@ func (k *worker) buildParents(t *truth) *parents {
 	for i := range t.pv {
 		if !t.pv[i].Visible && t.v.KeepRefs {
 			refs := expectedRefs(t.pv, i, true)
-			if f.isWay() {
+			if f.IsWay() {
 				p.ways[i].Nodes = make(osm.WayNodes, len(refs))
 				for j, c := range refs {
 					p.ways[i].Nodes[j].ID = c.NodeID()
@@ -565,7 +558,7 @@ func (k *worker) evalVariant(v Variant, times []time.Time) *truth {
 		opts = append(opts, annotate.ChildFilter(func(id osm.FeatureID) bool { return id == accept }))
 	}
 
-	err, panicked := callLibrary(f.isWay(), p, ds, opts)
+	err, panicked := callLibrary(f.IsWay(), p, ds, opts)
 	k.calls++
 
 	pre := k.sp.keyPrefix() + "/" + v.class() + "/"
@@ -649,13 +642,18 @@ func errClass(err error) string {
 // ---------------------------------------------------------------- replay
 
 func replay(r *kit.Run, c Case) {
-	sp := spaceFromID(c.Space)
+	sp := &Space{Space: *histsim.SpaceFromID(c.Space)}
 	var stop int32
 	k := newWorker(r, sp, &stop)
 	k.reset(c.Ops)
 	times := k.queryTimes()
 	fmt.Printf("replaying %s, variant %s, history %v\n", sp.label(), c.Variant.Name, k.traceStrings())
+	// The library iterates a Go map; a defect that depends on that order may
+	// need a few attempts to show again.
 	t := k.evalVariant(c.Variant, times)
+	for try := 1; try < 64 && r.Violations() == 0; try++ {
+		t = k.evalVariant(c.Variant, times)
+	}
 	r.Case(fmt.Sprint(sp.label(), c.Ops, c.Variant.Name), t.nontriv)
 	r.Sample(k.describe(t))
 	r.Set("states", 1)
